@@ -165,6 +165,41 @@ def r3_copy_on_write(ctx):
         lv = tr.origins(b, c.args[0])
         ok = bool(lv) and all(l.kind == "call" and re.search(r"Methods::mut_callbacks$|Arc::<.*>::make_mut$", l.detail["callee"] or "") for l in lv)
         R.check(ok, "C13.R3", "%s:%s-via-mut_callbacks#%d" % (fkey(b), c.name().split("::")[-1], sorted(x.bb for x in b.calls_to(re.escape(c.name()) + "$")).index(c.bb)), "table.%s goes through mut_callbacks()" % c.name().split("::")[-1], "the method table is mutated (%s) through %s, bypassing copy-on-write" % (c.name().split("::")[-1], [flow.leaf_str(l) for l in lv]), where(c))
+    # the Arc itself is never replaced / swapped / taken: `&mut self.callbacks` only ever feeds Arc::make_mut, and the
+    # field is assigned only where a Methods value is constructed
+    n_b = 0
+    for b in F.real_bodies():
+        if b.crate != CORE or is_test_body(b) or "server::rpc_module" not in b.path:
+            continue
+        for bi, blk in enumerate(b.blocks):
+            if blk.get("cleanup"):
+                continue
+            for st in blk["st"]:
+                if st["s"] != "assign":
+                    continue
+                pp = st["pl"].get("p", [])
+                if pp and isinstance(pp[-1], dict) and pp[-1].get("n") == "callbacks" and (pp[-1].get("o") or "").endswith("rpc_module::Methods"):
+                    R.bad("C13.R3", "%s:table-replaced" % fkey(b), "%s assigns Methods.callbacks directly: the whole table is replaced outside the verified insert paths" % short(b.path), "%s:%d" % (b.file, st["sp"][0]))
+                rv = st["rv"]
+                if rv["k"] == "ref" and rv["m"] == "mut":
+                    q = rv["pl"].get("p", [])
+                    if q and isinstance(q[-1], dict) and q[-1].get("n") == "callbacks" and (q[-1].get("o") or "").endswith("rpc_module::Methods"):
+                        n_b += 1
+                        holders = follow_value(b, st["pl"]["l"])
+                        grew = True
+                        while grew:  # reborrows `&mut *h`
+                            grew = False
+                            for l2, defs2 in b.defs.items():
+                                if l2 in holders:
+                                    continue
+                                for _, _, dpl2, src2 in defs2:
+                                    if not dpl2.get("p") and src2[0] == "rv" and src2[1]["k"] == "ref" and src2[1]["pl"]["l"] in holders and all(e == "*" for e in src2[1]["pl"].get("p", [])):
+                                        holders |= follow_value(b, l2)
+                                        grew = True
+                        users = [c for c in b.calls if any(op_place(a) is not None and not op_place(a).get("p") and op_place(a)["l"] in holders for a in c.args)]
+                        bad_u = [c for c in users if not re.search(r"Arc::<.*>::make_mut$", c.name() or "")]
+                        R.check(not bad_u, "C13.R3", "%s:mut-borrow-of-table-arc#%d" % (fkey(b), n_b), "`&mut self.callbacks` only feeds Arc::make_mut", "%s hands `&mut Methods.callbacks` to %s: the table is swapped/replaced wholesale, bypassing name verification (a failed merge/registration then does not leave the module as it was)" % (short(b.path), [short(c.name()) for c in bad_u]), "%s:%d" % (b.file, st["sp"][0]))
+    R.floor("C13.R3.borrows", n_b, 1, "mutable borrows of Methods.callbacks")
     # Methods is Clone by sharing the Arc (derive) and the field is private
     adt = F.adt("jsonrpsee_core::server::rpc_module::Methods")
     if adt is None:
